@@ -13,6 +13,4 @@ Definition norm (v : R * R * R) : R * R := let '(x, y, z) := v in (x / z, y / z)
 Definition on_line_through (p q : R * R) (x y : R) : Prop :=
   (snd q - snd p) * (x - fst p) = (fst q - fst p) * (y - snd p).
 
-(* Intersect's decision on the four azimuths (sign bits): an error iff the azimuths to and from
-   the crossing disagree in sign on either line *)
-Definition bounded_ok (sa1 sa2 sb1 sb2 : bool) : bool := Bool.eqb sa1 sa2 && Bool.eqb sb1 sb2.
+(* Intersect's inside/outside decision lives in Geo/Heading.v *)
